@@ -54,4 +54,65 @@ INFO: dict[str, dict[str, Any]] = {
         "budget": {"quick": {"runs": 400, "seconds": 120, "chunk": 20}, "thorough": {"runs": None, "seconds": 900, "chunk": 20}},
         "assumptions": COMMON_ASSUMPTIONS,
     },
+    "C06": {
+        "level": "exploration",
+        "technique": "deterministic simulation: delivery schedules + crash/restart + cancel; every durable status change (trigger audit) checked against a frozen transition table",
+        "rule": ("one evaluation = one simulated execution (mode drawn per run: seeded schedule / crash at a seeded commit with restart "
+                 "and recovery / two crashes / cancel request at a seeded step); every durable status change row is checked. "
+                 "distinct = durable-history digest; every run is non-trivial (each contains >= 1 durable status change to judge)"),
+        "budget": {"quick": {"runs": 400, "seconds": 120, "chunk": 20}, "thorough": {"runs": None, "seconds": 900, "chunk": 20}},
+        "assumptions": COMMON_ASSUMPTIONS + ["the frozen table is the pinned commit's VALID_TRANSITIONS; a change of the live table is itself reported"],
+    },
+    "C10": {
+        "level": "exploration",
+        "technique": "deterministic simulation: real run_recovery() injected before delivery steps (x1/x2) vs sweep-free run; crash + one sweep vs crash + two sweeps",
+        "rule": ("one evaluation = one simulated execution; healthy mode injects the real recovery sweep (once or twice in a row) before "
+                 "delivery steps with per-run probability 0.15/0.5/1.0 under a seeded delivery order and compares outcome and per-task "
+                 "execution counts with the sweep-free in-order run; crash mode crashes at a seeded commit and compares restart with one "
+                 "sweep against restart with two sweeps (same schedule). non-trivial = at least one sweep or crash fired"),
+        "budget": {"quick": {"runs": 300, "seconds": 150, "chunk": 10}, "thorough": {"runs": None, "seconds": 900, "chunk": 10}},
+        "assumptions": COMMON_ASSUMPTIONS + ["the sweep runs between handler invocations here; sweep concurrent with a handler is exercised by the interleaving engine (C10w workload in C04's engine)"],
+    },
+    "C17": {
+        "level": "exploration",
+        "technique": "deterministic simulation: cancel request injected at a seeded delivery step under seeded delivery orders; ledger/audit oracle",
+        "rule": ("one evaluation = one simulated execution in which Orchestrator.cancel is called before delivery step k (k seeded, 0..59) "
+                 "and the remaining messages, CancelWorkflow included, are delivered in a seeded order with lost acks; oracle: no task "
+                 "execution after the commit that recorded CancelWorkflow as processed, unfinished stages end CANCELED, workflow final. "
+                 "non-trivial = the cancel was issued and processed while the workflow was unfinished"),
+        "budget": {"quick": {"runs": 400, "seconds": 120, "chunk": 20}, "thorough": {"runs": None, "seconds": 900, "chunk": 20}},
+        "assumptions": COMMON_ASSUMPTIONS,
+    },
+    "C14": {
+        "level": "exploration",
+        "technique": "deterministic simulation: transient-failure counts 0..beyond the limit x progress x task position x delivery order (reorder, lost ack) with simulated back-off time",
+        "rule": ("one evaluation = one simulated execution of a stage whose task raises TransientError k times (k in 0,1,2,3,5,8,9,10,11,13,inf; "
+                 "with/without context_update; first/middle/last of 1-3 tasks; optional stages before/after; continue-on-failure) or polls n "
+                 "times, under a seeded delivery order; oracle: strictly increasing progress, success below the limit, <= 11 executions then "
+                 "TERMINAL at the limit, retries queued later than the failure. non-trivial = at least one failed attempt or RUNNING poll"),
+        "budget": {"quick": {"runs": 300, "seconds": 120, "chunk": 15}, "thorough": {"runs": None, "seconds": 900, "chunk": 15}},
+        "assumptions": COMMON_ASSUMPTIONS + ["documented limit = 10 attempts (README / error.py); 10 and 11 executions are both accepted"],
+    },
+    "C15": {
+        "level": "exploration",
+        "technique": "deterministic simulation: loop shapes x requested iterations x max-jumps x delivery order, judged by a reference model of the loop",
+        "rule": ("one evaluation = one simulated execution of a loop program (self loop / 2-4 stage cycle / loop next to a side branch with "
+                 "fan-in / forward jump over a diamond), requested iterations in {0,1,2,limit-1,limit,limit+1,limit+2}, max-jumps in "
+                 "{unset,0,1,3} on workflow or stage, under a seeded delivery order with lost acks; oracle = model: jumps = min(requested, "
+                 "limit), TERMINAL beyond the limit, per-iteration run counts, bypassed stages SKIPPED and never run. non-trivial = at "
+                 "least one JumpToStage was queued"),
+        "budget": {"quick": {"runs": 300, "seconds": 120, "chunk": 15}, "thorough": {"runs": None, "seconds": 900, "chunk": 15}},
+        "assumptions": COMMON_ASSUMPTIONS,
+    },
+    "C16": {
+        "level": "exploration",
+        "technique": "deterministic simulation: DAGs with overlapping output keys / loops / reducers under seeded delivery orders and hash seeds; attributable-value oracle on recorded task contexts",
+        "rule": ("one evaluation = one simulated execution of a random DAG (<=7 stages, overlapping scalar/list keys, own-context keys, "
+                 "OR-splits, jump loops) or of a reducer fan-in (2-4 branches, numeric values, sum/max/min/collect/extend) under a seeded "
+                 "delivery order; oracle: each value seen by a task comes from an ancestor, from its current iteration, nearest ancestor on "
+                 "path-ordered keys, own context wins, list keys hold the union; reducers equal the model for any completion order. "
+                 "non-trivial = more than two task executions recorded"),
+        "budget": {"quick": {"runs": 400, "seconds": 120, "chunk": 20}, "thorough": {"runs": None, "seconds": 900, "chunk": 20}},
+        "assumptions": COMMON_ASSUMPTIONS + ["4 PYTHONHASHSEED values per batch (set iteration order feeds the ancestor merge)"],
+    },
 }
